@@ -153,7 +153,8 @@ CHECKS = {
  "C05": dict(
   text="Bounded symbolic model checking through UsedUserTypes() and Check(): 16 reference positions (value shortcut, @a | @b, key "
        "shortcut, type, or item string, or rule-set type alone and with further rules (unnamed types), allOf, additionalProperties, "
-       "nested array/object, allOf list + own member, nested allOf, quoted type-like key, repeated key shortcut) "
+       "nested array/object, allOf list + own member, nested allOf, allOf on an array item, quoted type-like key, repeated key shortcut; "
+       "UsedUserTypes() also asked after Check()) "
        "whose target names are symbolic letters over {@a,@b,@c} - the collector's de-duplication map and the type table are looked up "
        "with symbolic keys, so the solver decides which names coincide - under every subset of registered types (symbolic flags): "
        "UsedUserTypes() equals the distinct names in text order regardless of registration; Check() reports code 1302 naming a "
@@ -169,7 +170,8 @@ CHECKS = {
        "reported when the root has no finite instance (least-fixpoint oracle); (2) a root that reaches itself through mandatory "
        "plain links is reported; (3) when Check() passes, Example() terminates within the step budget and is RFC 8259 JSON. Two more "
        "families in both tiers: two types of which one has TWO members of every kind and target (so an optional/nullable/array/choice "
-       "member stands before or after a mandatory link), and four-type choice shapes with dead-end alternatives.",
+       "member stands before or after a mandatory link; `optional: false` written out; the second type's root object optionally "
+       "nullable; all schemas optionally built with keys optional by default), and four-type choice shapes with dead-end alternatives.",
   note="After the forks on edge kinds and targets the runs are concrete: the solver's role here is exhaustive enumeration of the "
        "bounded graph space through the real pipeline. Known finding C06-long-mandatory-cycle (cycles through two or more other "
        "types pass Check) is reported as KNOWN-FINDING.",
@@ -182,8 +184,9 @@ CHECKS = {
        "merged, the compiled ObjectNode has own keys then inherited ones in order, each marked with the parent named in this "
        "object's allOf and keeping its optional flag, a lookup by name finds that same property, the compiled node's own AST lists "
        "them with their origin, Example() shows exactly that key set in order, and openapi.Dereference(root) is one object whose "
-       "PropertiesInfos() are exactly those keys with their optional status in order. Heirs: required keys, nested heirs in "
-       "referenced types, inherited objects.",
+       "PropertiesInfos() are exactly those keys with their optional status in order, on every call, also for a root that is a choice "
+       "between two heirs of one parent. Heirs: required keys (also with keys optional by default), nested heirs in referenced types, "
+       "heirs that are array items, inherited objects.",
   note="Deeper DAGs than the listed shapes are outside.",
   ref="DESIGN.md §4 C07"),
 
@@ -191,8 +194,10 @@ CHECKS = {
   text="Bounded symbolic model checking of GetAST() against a schema MODEL printed to text: an integer with 0-3 rules from {min, max, "
        "nullable} in eleven orders (one name optionally quoted), rules only / note only / rules + note, inline or multi-line; objects "
        "and arrays whose members are an annotated number, a multi-line annotated string, a reference, a type choice and a key "
-       "shortcut; nested `or` lists with a rule set and a type name, `enum` lists of five kinds, and 19-20 digit maxLength/maxItems "
-       "values. Digits, characters and notes (0-2 bytes) are symbolic. The real AST is walked in package: one node per element in "
+       "shortcut; nested `or` lists with a rule set and a type name (also a rule set that starts with an enum list), `enum` lists of "
+       "five kinds, 19-20 digit maxLength/maxItems values, the remaining rule kinds (type, precision, exclusiveMinimum/Maximum, const, "
+       "minLength, regex with escapes, additionalProperties, a format type) in written and reversed order, and \\u escapes with lower- "
+       "and upper-case hex digits in values and enum items (each family must be accepted on some path). Digits, characters and notes (0-2 bytes) are symbolic. The real AST is walked in package: one node per element in "
        "source order with kind, key, shortcut flag, decoded value, trimmed note and exactly the written rules - names, order and "
        "values including nested Items/Properties.",
   note="Rules the loader derives from a shortcut (type / or with Source=Generated) are not 'written' rules and are ignored; "
